@@ -28,8 +28,22 @@ def fs(q):
     return '%d/%d' % (q.numerator, q.denominator)
 
 
-def build_py(e):
+def build_py(e, memo=None):
+    """memo (a dict) makes structurally equal sub-expressions ONE Python object: f*f with both factors the very same
+    generating function, a sum bound to a name and used twice, ... (what a user's `f = ...; g = f * f` does)"""
+    if memo is None:
+        return _build_py(e, None)
+    key = repr(e)
+    if key not in memo:
+        memo[key] = _build_py(e, memo)
+    return memo[key]
+
+
+def _build_py(e, memo):
     import epydemic.gf as G
+
+    def build_py(x):
+        return globals()['build_py'](x, memo)
     t = e[0]
     if t == 'C':
         return G.gf_from_coefficients([fr(c) for c in e[1]])
@@ -287,6 +301,8 @@ def rnd_expr(rnd, d):
         op = rnd.choice(['+', '-', '*', '*'])
         # one deep side, the other side of random depth: deep but not always bushy
         a, b = rnd_expr(rnd, d - 1), rnd_expr(rnd, rnd.randrange(0, d))
+        if rnd.random() < 0.2:
+            b = a               # the same sub-expression twice (one shared object when the case says so)
         if rnd.random() < 0.5:
             a, b = b, a
         return [op, a, b]
@@ -385,10 +401,11 @@ class H(Harness):
             if rnd.random() < 0.5:      # a derivative on top: gf.dx(k)[i], gf.dx(k)(x)
                 e = ['dx', e, rnd.choice([1, 1, 2, 3, 5])]
             idx, pts = queries(rnd, e)
-            case = {'expr': e, 'idx': idx, 'pts': pts}
+            share = rnd.random() < 0.5       # structurally equal sub-expressions are one shared object
+            case = {'expr': e, 'idx': idx, 'pts': pts, 'share': share}
             if not self._accept(case):
                 # ask less before giving up on a deep program
-                case = {'expr': e, 'idx': [i for i in idx if i <= 3][:3], 'pts': pts[:1]}
+                case = {'expr': e, 'idx': [i for i in idx if i <= 3][:3], 'pts': pts[:1], 'share': share}
                 if not self._accept(case):
                     self.rejected += 1
                     continue
@@ -418,13 +435,18 @@ class H(Harness):
             cs[-1] = '3'
             for e in (['C', cs], ['dx1', ['C', cs]], ['*n', ['+', ['C', cs], ['C', ['1', '1']]], '1/2']):
                 out.append({'expr': e, 'idx': [0, n - 2, n - 1, n], 'pts': [x]})
+        # a generating function multiplied by ITSELF (one object): squares of leaves, of sums, of derivatives, cubes
+        for leaf in (['C', ['1', '2']], ['C', ['1/2', '0', '-3', '2']], ['F', ['0', '1', '1/3']], ['C', ['2/3', '-1/2', '1', '5', '7']]):
+            for inner in (leaf, ['+', leaf, ['C', ['1', '1']]], ['dx1', leaf], ['*n', leaf, '3']):
+                for e in (['*', inner, inner], ['*', ['*', inner, inner], inner], ['dx1', ['*', inner, inner]], ['-', ['*', inner, inner], inner]):
+                    out.append({'expr': e, 'idx': list(range(0, 9)), 'pts': ['1', '-1/2'], 'share': True})
         out = [c for c in out if self._accept(c) or max_len(c['expr']) > 100]
         return out
 
     def execute(self, case):
         # exceptions of the GF operators on a well-formed program are observable behaviour
         try:
-            g = build_py(case['expr'])
+            g = build_py(case['expr'], {} if case.get('share') else None)
             coeffs = [g[i] for i in case['idx']]
             values = [g(fr(x)) for x in case['pts']]
         except ZeroDivisionError:
